@@ -9,4 +9,4 @@ RULE = ('the C09 histories with a deletion-heavy mix over schema variants that f
 
 
 def main(tier, seed):
-    return seqcommon.main_for('C15', 'exploration', RULE, ['delete', 'delete', 'rels', 'order'], tier, seed)
+    return seqcommon.main_for('C15', 'exploration', RULE, ['delete', 'delete', 'rels', 'order', 'partial'], tier, seed)
